@@ -55,5 +55,7 @@ LEVEL = "proof"
 LEVEL_TEXT = ("Theorem over the models of zvariant's D-Bus serializer and deserializer: decoding `marshal e pos v ++ rest` at any offset "
               "returns v and consumes exactly the encoded length, for every well-formed value within the limits; with C01 this is the round "
               "trip of the code's own encoder. Tied to /repo by running encode-then-decode on the real code for generated values.")
-LEVEL_NOTE = ("D-Bus format only: the GVariant half of the property is not modelled (partial). Typed targets other than the dynamic Value "
-              "are exercised on the encoder side (C01) but decoded as dynamic values.")
+LEVEL_NOTE = ("This check covers the D-Bus format; the GVariant half of the property (model of zvariant/src/gvariant, theorems "
+              "C02_gv_roundtrip / C02_gv_decode_spec, correspondence runs under the gvariant feature) lives in the C05 check and "
+              "coq/theories/Properties/C05.v. Typed targets other than the dynamic Value are exercised on the encoder side (C01) "
+              "but decoded as dynamic values.")
